@@ -27,9 +27,8 @@ def np_sum(it, a, k):
         return mk_scalar("np", "npscalar", A.vsum(x))
     if axis != 0:
         raise Unsupported("np.sum with axis != 0")
-    if not isinstance(x, Arr) or x.is_scalar:
-        c.oblige("safe", "np.sum(x, 0): x has at least one dimension (AxisError on 0-d input)", T.FALSE)
-        raise Infeasible()
+    # numpy 2.5: axis 0 of a 0-d input is accepted and the value is returned (sampled by
+    # tools/library_contracts.py; older releases raised AxisError)
     return mk_scalar("np", "npscalar", A.vsum(x))
 
 
